@@ -6,6 +6,7 @@ package vh
 
 import (
 	"bytes"
+	"errors"
 	"fmt"
 	"io"
 	"net/http"
@@ -14,6 +15,7 @@ import (
 	"strconv"
 	"sync"
 	"testing"
+	"testing/iotest"
 	"time"
 
 	vegeta "github.com/tsenart/vegeta/v12/lib"
@@ -25,6 +27,7 @@ type stressRT struct {
 	enter  map[uint64]time.Duration
 	exit   map[uint64]time.Duration
 	jitter time.Duration
+	faults bool // some exchanges fail in the transport or while the body is read: every exit path measures latency
 }
 
 func (rt *stressRT) RoundTrip(req *http.Request) (*http.Response, error) {
@@ -37,6 +40,13 @@ func (rt *stressRT) RoundTrip(req *http.Request) (*http.Response, error) {
 	rt.mu.Lock()
 	rt.enter[seq], rt.exit[seq] = en, ex
 	rt.mu.Unlock()
+	switch {
+	case rt.faults && seq%11 == 3: // the transport fails
+		return nil, errors.New("scripted transport failure")
+	case rt.faults && seq%11 == 7: // the body cannot be read
+		return &http.Response{Status: "200 OK", StatusCode: 200, Proto: "HTTP/1.1", ProtoMajor: 1, ProtoMinor: 1,
+			Header: http.Header{}, Body: io.NopCloser(iotest.ErrReader(errors.New("scripted read failure"))), Request: req}, nil
+	}
 	return &http.Response{Status: "200 OK", StatusCode: 200, Proto: "HTTP/1.1", ProtoMajor: 1, ProtoMinor: 1,
 		Header: http.Header{}, Body: io.NopCloser(bytes.NewReader(nil)), Request: req}, nil
 }
@@ -63,13 +73,17 @@ func TestDrv_C05(t *testing.T) {
 	results := 0
 	var samples []any
 	for ci, c := range cfgs {
-		rt := &stressRT{enter: map[uint64]time.Duration{}, exit: map[uint64]time.Duration{}, jitter: c.jitter}
+		rt := &stressRT{enter: map[uint64]time.Duration{}, exit: map[uint64]time.Duration{}, jitter: c.jitter, faults: ci%2 == 1}
 		opts := []func(*vegeta.Attacker){vegeta.Client(&http.Client{Transport: rt}), vegeta.Workers(c.workers)}
 		if c.maxw > 0 {
 			opts = append(opts, vegeta.MaxWorkers(c.maxw))
 		}
 		atk := vegeta.NewAttacker(opts...)
-		tgt := vegeta.NewStaticTargeter(vegeta.Target{Method: "GET", URL: "http://verif.invalid/"})
+		tgts := []vegeta.Target{{Method: "GET", URL: "http://verif.invalid/"}}
+		if rt.faults { // and some never reach the transport: the request cannot be built
+			tgts = append(tgts, vegeta.Target{Method: "GET", URL: "http://verif.invalid/a"}, vegeta.Target{Method: "BAD METHOD", URL: "http://verif.invalid/"})
+		}
+		tgt := vegeta.NewStaticTargeter(tgts...)
 		rt.start = time.Now()
 		var got []*vegeta.Result
 		for r := range atk.Attack(tgt, vegeta.ConstantPacer{Freq: c.rate, Per: time.Second}, 0, "c05") {
